@@ -9,6 +9,7 @@
 
 mod alloc;
 mod c15;
+mod c16;
 mod engine;
 mod json;
 mod rng;
@@ -271,6 +272,7 @@ macro_rules! dispatch {
     ($id:expr, $f:ident, $($arg:expr),*) => {
         match $id {
             "C15" => $f::<c15::P15>($($arg),*),
+            "C16" => $f::<c16::P16>($($arg),*),
             other => harness_error(&format!("unknown property {other}")),
         }
     };
